@@ -94,7 +94,15 @@ def run_case(case):
     n = 0
     nontrivial = 0
     planidx = {}
+    todo = list(filters_for(tier, uname))
+    # every multi-filter REQ once more with each filter's limit set to exactly its number of (loosely) matching stored events: no
+    # filter exceeds its limit, so everything must still arrive (a cap on the whole REQ or on the wrong filter shows here)
     for filters in filters_for(tier, uname):
+        if len(filters) >= 2 and all(isinstance(f, dict) and "limit" not in f for f in filters):
+            counts = [sum(1 for e in store_events if Q.loose_matches(f, e)) for f in filters]
+            if sum(counts) >= 2:
+                todo.append([dict(f, limit=max(1, c)) for f, c in zip(filters, counts)])
+    for filters in todo:
         evs, eose, notices, closed, others = Q.answer(sess, filters)
         n += 1
         if evs:
@@ -117,7 +125,8 @@ def coverage(tier, agg):
         "rule": "stores = all subsets of the %d-member regular-event universe U1 (authors A,B,C; kinds 1,2,255,256; timestamps 10,20,20,20,20,30,30, "
                 "1700000000,1700000001,10; tag values a/ab/abc/b, quote, NUL, unicode, duplicate tag, delegation; ids ground to 00.. and ff..); "
                 "filter lists = single filters with every combination of <=3 of ids/authors/kinds/#e/#p/#t/#d values x since/until windows at "
-                "every timestamp +-1, plus 2..5-filter REQs; oracle = NIP-01 reference matcher: strict-window matches must be delivered, "
+                "every timestamp +-1, plus 2..5-filter REQs, each of those also with every filter's limit set to exactly its number of matching "
+                "stored events; oracle = NIP-01 reference matcher: strict-window matches must be delivered, "
                 "an event matching k filters arrives <= k times; non-trivial case = store with at least one non-empty answer" % len(Q.members(tier)),
         "filter_lists_per_store": {"U1": len(fl), "U2": len(fl2)},
         "stores_per_backend": {"U1": 2 ** len(Q.members(tier)), "U2": 2 ** len(Q.members(tier, "U2"))},
